@@ -80,6 +80,10 @@ def run(ctx):
                 ctx.ok("C15.N2", fn, "get:%s" % which, "fallible lookup (no panic)", line=line)
     ctx.floor("C15.N2", "digest lookups in the selection walkers", nlook, 4)
     n3(ctx, fx, H)
+    # N4: narrowing addresses array elements by position: the list walkers pair selection and claims in lock step over the full element
+    # sequences (rule shared with C06.H2 / C01.f): a presentation that withholds an earlier element must not shift later selectors
+    import c06
+    c06.role_preserving(common.RelabelCtx(ctx, "C15.N4", keep=("positional-zip", "recursion-roles")), fx, H, "C15.N4")
 
 
 def n3(ctx, fx, H):
